@@ -18,100 +18,141 @@ EXPLANATION = ('every random draw feeding a string bit, sign, coin or selector i
 TRUSTED = ['CPython ast', 'oracle.py', 'effects.py (purity of the signless rotation kernel)', 'numpy/torch randint semantics']
 
 
+def _acq_zero_guard(test):
+    """(a, b) when `test` holds exactly for acq(a, b) == 0 with a, b plain names; else None."""
+    calls = [c for c in ast.walk(test) if isinstance(c, ast.Call) and norm(c.func) == 'acq' and len(c.args) == 2
+             and all(isinstance(x, ast.Name) for x in c.args)]
+    if len(calls) != 1:
+        return None
+    try:
+        vals = []
+        for a in (0, 1):
+            def call(n, env, rec, a=a):
+                if norm(n.func) == 'acq':
+                    return a
+                raise Undecidable('call')
+            vals.append(bool(ev(test, {}, call=call)))
+    except Undecidable:
+        return None
+    if vals != [True, False]:
+        return None
+    return calls[0].args[0].id, calls[0].args[1].id
+
+
+def _slot(index, var):
+    """'x' / 'z' for an index 2*var (+1), or the constants 0 / 1 when the string has one qubit (var None)."""
+    if var is None:
+        return {0: 'x', 1: 'z'}.get(index.value) if isinstance(index, ast.Constant) else None
+    return {(2, 0): 'x', (2, 1): 'z'}.get(affine_in(index, var))
+
+
+def flip_sites(f):
+    """Every block guarded by acq(a, b) == 0 that stores into slots of b: (a, b, site variable or None, {slot: (stmt, value)}, guard)."""
+    out = []
+    for st, ctx in walk(f.node):
+        if not isinstance(st, ast.If):
+            continue
+        ab = _acq_zero_guard(st.test)
+        if ab is None:
+            continue
+        g1, g2 = ab
+        stores = [s for s in st.body if isinstance(s, ast.Assign) and isinstance(s.targets[0], ast.Subscript)
+                  and isinstance(s.targets[0].value, ast.Name) and s.targets[0].value.id == g2]
+        if not stores:
+            continue
+        names = {n.id for s in stores for n in ast.walk(s.targets[0].slice) if isinstance(n, ast.Name)}
+        var = sorted(names)[0] if len(names) == 1 else None
+        if len(names) > 1:
+            out.append((g1, g2, None, None, st))
+            continue
+        ups = {}
+        for s in stores:
+            sl = _slot(s.targets[0].slice, var)
+            if sl:
+                ups[sl] = (s, s.value)
+        out.append((g1, g2, var, ups, st))
+    return out
+
+
 def flip_normal_form(run, f, loop_form):
-    """random_pair / impose_leading_noncommutivity: the update of g2 at the first nontrivial site of g1 flips acq."""
+    """random_pair / impose_leading_noncommutivity (and any other block guarded by acq(a, b) == 0): the update of the second
+    string at the first nontrivial site of the first flips their anticommutation bit."""
     from .. import oracle
-    ups = {}
     if loop_form:
-        g1, g2 = 'g1', 'g2'
-        for st, ctx in walk(f.node):
-            if isinstance(st, ast.Assign) and isinstance(st.targets[0], ast.Subscript) and norm(st.targets[0].value) == g2:
-                ab = affine_in(st.targets[0].slice, 'i')
-                slot = {(2, 0): 'x', (2, 1): 'z'}.get(ab)
-                if slot:
-                    ups[slot] = (st, st.value, ctx)
+        sites = flip_sites(f)
+        for g1, g2, var, ups, guard in sites:
+            if ups is None or set(ups) != {'x', 'z'}:
+                run.undecided('R8.flip', f, guard.test, 'the two slot updates of the second string were not recognised (%s)' % (sorted(ups) if ups else None))
+                continue
+            order = sorted(ups, key=lambda s: ups[s][0].lineno)
+            bad = None
+            try:
+                for x1, z1, x2, z2 in itertools.product((0, 1), repeat=4):
+                    b = {(g1, 'x'): x1, (g1, 'z'): z1, (g2, 'x'): x2, (g2, 'z'): z2}
 
-        def mk_sub(b):
-            def sub(n, env, rec):
-                ab = affine_in(n.slice, 'i')
-                slot = {(2, 0): 'x', (2, 1): 'z'}.get(ab)
-                if slot is None or norm(n.value) not in (g1, g2):
-                    raise Undecidable('subscript ' + norm(n))
-                return b[(norm(n.value), slot)]
-            return sub
-        call = None
-    else:
-        g1, g2 = f.posparams[0], f.posparams[1]
-        for st, ctx in walk(f.node):
-            if isinstance(st, ast.Assign) and isinstance(st.value, ast.Call) and isinstance(st.value.func, ast.Attribute) \
-                    and st.value.func.attr == 'scatter' and norm(st.value.func.value) == g2 and len(st.value.args) == 3:
-                ab = affine_in(st.value.args[1], 'i')
-                slot = {(2, 0): 'x', (2, 1): 'z'}.get(ab)
-                if slot:
-                    ups[slot] = (st, st.value.args[2], ctx)
-
-        def mk_sub(b):
-            def sub(n, env, rec):
-                raise Undecidable('subscript')
-            return sub
+                    def sub(n, env, rec, b=b):
+                        sl = _slot(n.slice, var)
+                        if sl is None or norm(n.value) not in (g1, g2):
+                            raise Undecidable('subscript ' + norm(n))
+                        return b[(norm(n.value), sl)]
+                    for slot in order:      # sequential semantics: the later update reads the already-updated slot
+                        b[(g2, slot)] = ev(ups[slot][1], {}, sub=sub)
+                    nx2, nz2 = b[(g2, 'x')], b[(g2, 'z')]
+                    if nx2 not in (0, 1) or nz2 not in (0, 1):
+                        bad = ((x1, z1, x2, z2), 'entries leave {0,1}')
+                        break
+                    if (x1, z1) != (0, 0) and oracle.site_acq(x1, z1, x2, z2) == oracle.site_acq(x1, z1, nx2, nz2):
+                        bad = ((x1, z1, x2, z2), 'the anticommutation bit at the pivot site is not flipped')
+                        break
+            except Undecidable as e:
+                run.undecided('R8.flip', f, guard.test, str(e))
+                continue
+            run.check(bad is None, 'R8.flip', f, norm(ups['x'][0]) + ' ; ' + norm(ups['z'][0]),
+                      'a commuting pair must be turned into an anticommuting one by changing %s at the first nontrivial site of %s: '
+                      '(x1, z1, x2, z2) = %s' % (g2, g1, bad))
+            run.ok('R8.flip', f, guard.test, 'only a commuting pair is modified')
+        return len(sites)
+    ups = {}
+    g1, g2 = f.posparams[0], f.posparams[1]
+    for st, ctx in walk(f.node):
+        if isinstance(st, ast.Assign) and isinstance(st.value, ast.Call) and isinstance(st.value.func, ast.Attribute) \
+                and st.value.func.attr == 'scatter' and norm(st.value.func.value) == g2 and len(st.value.args) == 3:
+            ab = affine_in(st.value.args[1], 'i')
+            slot = {(2, 0): 'x', (2, 1): 'z'}.get(ab)
+            if slot:
+                ups[slot] = (st, st.value.args[2], ctx)
     if set(ups) != {'x', 'z'}:
         run.undecided('R8.flip', f, f.name, 'the two slot updates of the second string were not recognised (%s)' % sorted(ups))
-        return
-    # sequential semantics: the z update may read the already-updated x slot (pyclifford reads g2[2*i] only in the x update)
+        return 0
     order = sorted(ups, key=lambda s: ups[s][0].lineno)
     bad = None
     for x1, z1, x2, z2 in itertools.product((0, 1), repeat=4):
         b = {(g1, 'x'): x1, (g1, 'z'): z1, (g2, 'x'): x2, (g2, 'z'): z2}
         try:
             for slot in order:
-                expr = ups[slot][1]
-                if loop_form:
-                    v = ev(expr, {}, sub=mk_sub(b))
-                else:
-                    def call(n, env, rec, b=b):
-                        fn = norm(n.func)
-                        if fn == 'torch.gather' and len(n.args) == 3:
-                            ab = affine_in(n.args[2], 'i')
-                            sl = {(2, 0): 'x', (2, 1): 'z'}.get(ab)
-                            if sl is None:
-                                raise Undecidable('gather index')
-                            return b[(norm(n.args[0]), sl)]
-                        raise Undecidable('call ' + fn)
-                    v = ev(expr, {'mask': 1}, call=call)
-                b[(g2, slot)] = v
+                def call(n, env, rec, b=b):
+                    fn = norm(n.func)
+                    if fn == 'torch.gather' and len(n.args) == 3:
+                        ab = affine_in(n.args[2], 'i')
+                        sl = {(2, 0): 'x', (2, 1): 'z'}.get(ab)
+                        if sl is None:
+                            raise Undecidable('gather index')
+                        return b[(norm(n.args[0]), sl)]
+                    raise Undecidable('call ' + fn)
+                b[(g2, slot)] = ev(ups[slot][1], {'mask': 1}, call=call)
         except Undecidable as e:
             run.undecided('R8.flip', f, f.name, str(e))
-            return
+            return 0
         nx2, nz2 = b[(g2, 'x')], b[(g2, 'z')]
         if nx2 not in (0, 1) or nz2 not in (0, 1):
             bad = ((x1, z1, x2, z2), 'entries leave {0,1}')
             break
-        if (x1, z1) != (0, 0):
-            before = oracle.site_acq(x1, z1, x2, z2)
-            after = oracle.site_acq(x1, z1, nx2, nz2)
-            if after == before:
-                bad = ((x1, z1, x2, z2), 'the anticommutation bit at the pivot site is not flipped')
-                break
+        if (x1, z1) != (0, 0) and oracle.site_acq(x1, z1, x2, z2) == oracle.site_acq(x1, z1, nx2, nz2):
+            bad = ((x1, z1, x2, z2), 'the anticommutation bit at the pivot site is not flipped')
+            break
     run.check(bad is None, 'R8.flip', f, norm(ups['x'][0]) + ' ; ' + norm(ups['z'][0]),
               'a commuting pair must be turned into an anticommuting one by changing g2 at the first nontrivial site of g1: %s' % (bad,))
-    # guard: only commuting pairs are changed (loop form: under acq(g1,g2) == 0)
-    if loop_form:
-        st, _, ctx = ups['x']
-        ok = False
-        for t, pol in ctx.conds:
-            try:
-                vals = []
-                for a in (0, 1):
-                    def call(n, env, rec, a=a):
-                        if norm(n.func) == 'acq':
-                            return a
-                        raise Undecidable('call')
-                    vals.append(bool(ev(t, {}, call=call)) == pol)
-                if vals == [True, False]:
-                    ok = True
-            except Undecidable:
-                pass
-        run.check(ok, 'R8.flip', f, 'if acq(g1, g2) == 0', 'only a commuting pair may be modified')
+    return 1
 
 
 def sampler(run, repo, f):
@@ -145,6 +186,64 @@ def sampler(run, repo, f):
         inplace = stores_into(callee, callee.posparams[1]) and not rebinds(callee, callee.posparams[1])
         run.check(inplace or tgt == 'gs[:]', 'R16', f, st, 'the un-rotated block must be kept: the kernel returns a new array, '
                   'which is bound to `%s`' % tgt)
+    # the recursive call hands a view of the table to this function and discards the result, so everything must be written
+    # into the parameter object itself: the parameter may only be rebound to (a must-alias of) itself
+    p0 = f.posparams[0]
+    from ..rules.inout import stores_into, rebinds
+    for st, ctx in walk(f.node):
+        if not (isinstance(st, ast.Assign) and any(isinstance(t, ast.Name) and t.id == p0 for t in st.targets)):
+            continue
+        v = st.value
+        ok = isinstance(v, ast.Name) and v.id == p0
+        if isinstance(v, ast.Call):
+            fn = norm(v.func)
+            callee = repo.resolve_local(f, fn) if isinstance(v.func, ast.Name) else None
+            if callee is not None:
+                for k, a in enumerate(v.args):
+                    if isinstance(a, ast.Name) and a.id == p0 and k < len(callee.posparams):
+                        q = callee.posparams[k]
+                        ok = ok or (stores_into(callee, q) and not rebinds(callee, q))
+            elif fn.split('.')[-1] in ('asarray', 'asanyarray') and len(v.args) == 1 and not v.keywords and norm(v.args[0]) == p0:
+                ok = True
+        run.check(ok, 'R16', f, st, 'the block `%s` is filled in place for the caller (the recursive call passes the view %s[2:, 2:] and drops the '
+                  'result); rebinding it to %s makes the following writes go to a private array whenever that expression copies '
+                  '(a non-contiguous view always is copied)' % (p0, p0, norm(v)[:60]))
+
+
+def flip_everywhere(run, repo):
+    """R8.flip at every block of the sampling kernels that repairs a commuting pair (random_pair today; an inlined copy
+    elsewhere is held to the same normal form)."""
+    n = 0
+    for q, f in sorted(repo.modules[K.PY_U].funcs.items()):
+        n += flip_normal_form(run, f, True)
+    if not n:
+        run.undecided('R8.flip', repo.func(K.PY_U, 'random_pair'), 'random_pair', 'no block guarded by acq(g1, g2) == 0 found')
+    flip_normal_form(run, repo.func(K.TC_U, 'impose_leading_noncommutivity'), False)
+
+
+def pauli_blocks(run, repo):
+    """random_pauli: rows 2i, 2i+1 of the table receive the pair returned by random_pair(1) on columns 2i:2i+2."""
+    rpf = repo.func(K.PY_U, 'random_pauli')
+    from ..names import single_def
+    got, pair_src = {}, {}
+    for st, ctx in walk(rpf.node):
+        if isinstance(st, ast.Assign) and isinstance(st.targets[0], ast.Tuple) and isinstance(st.value, ast.Call) \
+                and norm(st.value.func) == 'random_pair' and len(st.targets[0].elts) == 2 and ctx.loops:
+            for k, e in enumerate(st.targets[0].elts):
+                if isinstance(e, ast.Name):
+                    pair_src[e.id] = k
+        if isinstance(st, ast.Assign) and isinstance(st.targets[0], ast.Subscript) and isinstance(st.targets[0].value, ast.Name) \
+                and st.targets[0].value.id in set(x for x in __import__('pcverif.names', fromlist=['x']).return_names(rpf) if x) \
+                and isinstance(st.targets[0].slice, ast.Tuple) and len(st.targets[0].slice.elts) == 2 and ctx.loops:
+            i = ctx.loops[-1].target.id
+            r, c = st.targets[0].slice.elts
+            if isinstance(c, ast.Slice) and c.lower is not None and c.upper is not None and isinstance(st.value, ast.Name):
+                got[pair_src.get(st.value.id, st.value.id)] = (affine_in(r, i), affine_in(c.lower, i), affine_in(c.upper, i))
+    if not pair_src:
+        run.undecided('R13.sampler', rpf, 'blocks', 'no `a, b = random_pair(1)` inside the loop over the qubits: the block construction is not in a shape this rule reads')
+        return
+    run.check(got == {0: ((2, 0), (2, 0), (2, 2)), 1: ((2, 1), (2, 0), (2, 2))}, 'R13.sampler', rpf, 'blocks',
+              'a random Pauli map is block diagonal: rows 2i, 2i+1 hold the anticommuting pair returned by random_pair(1) on columns 2i:2i+2 (found %s)' % got)
 
 
 def check(run):
@@ -158,6 +257,7 @@ def check(run):
         for q in names:
             f = repo.func(rel, q)
             n += rngsites.check_function(run, f)
+            rngsites.check_fresh_per_iteration(run, f)
     for rel in (K.PY_S, K.TC_S):
         for q in ('random_pauli_map', 'random_clifford_map'):
             f = repo.func(rel, q)
@@ -169,8 +269,7 @@ def check(run):
             run.check(len(psd) == 1 and kinds.kind_of(f, psd[0]) == 'HERM', 'R3a', f, 'ps = 2*bit', 'random signs are 2*(fair bit)')
     kinds.check_function(run, repo, repo.func(K.PY_S, 'random_bit_state_gs_ps'))
     # random_pair
-    flip_normal_form(run, repo.func(K.PY_U, 'random_pair'), True)
-    flip_normal_form(run, repo.func(K.TC_U, 'impose_leading_noncommutivity'), False)
+    flip_everywhere(run, repo)
     rp = repo.func(K.PY_U, 'random_pair')
     wh = [st for st, _ in walk(rp.node) if isinstance(st, ast.While)]
     run.check(len(wh) == 1 and norm(wh[0].test).replace(' ', '') == '(g1==0).all()', 'R11.resample', rp, 'while (g1 == 0).all()', 'the identity string is rejected and g1 resampled')
@@ -184,9 +283,10 @@ def check(run):
     fm, km = projk.guards_and_block(run, repo, K.PY_U, 'stabilizer_measure', signed=True)
     projk.coin_and_probability(run, fm, km)
     # the diagonalisation used by the sampler mirrors every emitted generator on both tracked strings
-    from .C18 import diag_kernel
+    from .C18 import diag_kernel, pivot_update
     for rel in (K.PY_U, K.TC_U):
         diag_kernel(run, repo.func(rel, 'pauli_diagonalize2'), ['g1', 'g2'])
+        pivot_update(run, repo.func(rel, 'pauli_diagonalize2'))
     # samplers
     for rel in (K.PY_U, K.TC_U):
         f = repo.func(rel, 'random_clifford.random_clifford_')
@@ -197,17 +297,7 @@ def check(run):
         run.check(len(rets) == 1 and rets[0].startswith('random_clifford_(') and 'zeros((2*N,2*N)' in rets[0], 'R13.sampler', rc, 'start', 'sampling starts from an empty 2N x 2N table')
         rpf = repo.func(rel, 'random_pauli')
         live.check_function(run, repo, eff, rpf)
-    rpf = repo.func(K.PY_U, 'random_pauli')
-    got = {}
-    for st, ctx in walk(rpf.node):
-        if isinstance(st, ast.Assign) and isinstance(st.targets[0], ast.Subscript) and norm(st.targets[0].value) == 'gs' \
-                and isinstance(st.targets[0].slice, ast.Tuple) and len(st.targets[0].slice.elts) == 2 and ctx.loops:
-            i = ctx.loops[-1].target.id
-            r, c = st.targets[0].slice.elts
-            if isinstance(c, ast.Slice) and c.lower is not None and c.upper is not None:
-                got[norm(st.value)] = (affine_in(r, i), affine_in(c.lower, i), affine_in(c.upper, i))
-    run.check(got == {'g1': ((2, 0), (2, 0), (2, 2)), 'g2': ((2, 1), (2, 0), (2, 2))}, 'R13.sampler', rpf, 'blocks',
-              'a random Pauli map is block diagonal: rows 2i, 2i+1 hold a random anticommuting pair on columns 2i:2i+2 (found %s)' % got)
+    pauli_blocks(run, repo)
     # gates without maps resample at every call
     for pkg in ('pyclifford', 'torchclifford'):
         gate = repo.cls(pkg, 'CliffordGate')
@@ -244,6 +334,7 @@ def check(run):
     run.floor('R9.block', 1)
     run.floor('R11.coin', 3)
     run.floor('R7.mirror', 6)
+    run.floor('R8.pivot', 2)
     run.decide('fair draw sites, 2*bit signs, commutation-flip normal form, sampler structure with live un-rotation, fresh random map '
                'per call and never cached, rcc gate patterns')
     run.decline('validity of sampled tables by construction and uniformity over the Clifford group (distributional facts); '
